@@ -24,7 +24,12 @@ func (oFrame) step(s *stepCtx) {
 		name := datatransfer.Events[e.Code]
 		if bookkeeping[e.Code] {
 			if n.Status != p.Status {
-				if !(e.Code == datatransfer.ResumeResponder && p.Status == datatransfer.Finalizing && n.Status == datatransfer.Completing) {
+				// two bookkeeping events carry a lifecycle meaning in one situation each: the resume that
+				// releases a finalizing responder, and the recorded restart of a channel whose initiator
+				// never saw the first response (the responder's accepted restart is the acceptance)
+				acceptanceByRestart := e.Code == datatransfer.Restart &&
+					((p.Status == datatransfer.Requested && n.Status == datatransfer.Queued) || (p.Status == datatransfer.AwaitingAcceptance && n.Status == datatransfer.Ongoing))
+				if !(e.Code == datatransfer.ResumeResponder && p.Status == datatransfer.Finalizing && n.Status == datatransfer.Completing) && !acceptanceByRestart {
 					s.h.fail("C03/bookkeeping-moved-status", "bookkeeping event %s changed status %s -> %s", name, datatransfer.Statuses[p.Status], datatransfer.Statuses[n.Status])
 				}
 			}
@@ -88,6 +93,13 @@ func (o *oLife) step(s *stepCtx) {
 				if p.Status == datatransfer.AwaitingAcceptance {
 					m.localDone = true
 					o.sawLocalOnly = true
+				}
+			case datatransfer.Restart:
+				// a restart is recorded on the initiator when the responder accepted it, and the responder
+				// accepts a restart only for a channel it had accepted: from here on the channel is an
+				// accepted one and must wait for the responder's Complete like any other
+				if n.Status == datatransfer.Requested || n.Status == datatransfer.AwaitingAcceptance {
+					s.h.fail("C03/accepted-restart-not-counted-as-acceptance", "the responder accepted a restart of this channel, yet it is still %s: it would complete on the local finish alone", datatransfer.Statuses[n.Status])
 				}
 			case datatransfer.ResponderCompletes:
 				m.word = "complete"
